@@ -95,6 +95,7 @@ def plan(tier, seed):
                 specs.append({"hashseed": hs, "nchrom": nchrom, "shape": shape})
         specs.append({"hashseed": hs, "mixed": True})
         specs.append({"hashseed": hs, "reuse": True})
+        specs.append({"hashseed": hs, "open": True})
     return specs
 
 
@@ -120,6 +121,7 @@ def judge(res, scratch, g, comps, req, by_chrom, root, flip, what):
 
     names = req.split(",")
     badnames = [c.chrom for c in comps if getattr(c, "bad", None)]
+    res.next_call()
     run = oc.run_order(scratch, g.text(), req, by_chrom=by_chrom, root=root, flip=flip, tag="a")
     res.evaluations += 1
     case = {"gfa": g.text(), "chromosome_order": req, "by_chrom": by_chrom, "root": root, "flip": flip, "bad": badnames,
@@ -205,6 +207,78 @@ def shard_reused_outdir(res, scratch):
                     res.fail("C18/skipped-component-in-complete-file", f"[{shape} at {comps[badi].chrom}] after an earlier --by-chrom run into the same directory, nodes of the skipped component appear in the complete file", case)
 
 
+def no_articulation_component(chrom, id_base, hap, kind):
+    """a component without any articulation point: a ring, or two linked segments. Whether that is 'a chain' is left
+    open by the statement; the command must complete and must not disturb the other chromosomes."""
+    g = rgfa.Graph()
+    n = 4 if kind == "ring" else 2
+    ids = [f"c{id_base + i}" for i in range(n)]
+    for i, nid in enumerate(ids):
+        g.add_seg(nid, gen._seq(3, id_base + i), [("LN", "i", "3"), ("SN", "Z", chrom), ("SO", "i", str(3 * i)), ("SR", "i", "0")])
+    for a, b in zip(ids, ids[1:]):
+        g.add_link(a, "+", b, "+", "0M")
+    if kind == "ring":
+        g.add_link(ids[-1], "+", ids[0], "+", "0M")
+
+    class C:
+        pass
+
+    c = C()
+    c.g, c.chrom, c.bad, c.open_shape = g, chrom, None, kind
+    return c
+
+
+def shard_open_shapes(res, scratch):
+    import os
+
+    for kind in ("ring", "two-segments"):
+        for pos in range(3):
+            slots = [("chr1", 0, "hA#1#c"), ("chr2", 40, "hB#1#c"), ("chr3", 80, "hC#1#c")]
+            comps = [no_articulation_component(slots[i][0], 300 + 10 * i, slots[i][2], kind) if i == pos else good(*slots[i]) for i in range(3)]
+            g = gen.merge_graphs([c.g for c in comps])
+            for req in ("chr1,chr2,chr3", "chr3,chr2,chr1", comps[pos].chrom):
+                for by_chrom in (True, False):
+                    run = oc.run_order(scratch, g.text(), req, by_chrom=by_chrom, tag="open")
+                    res.evaluations += 1
+                    res.next_call()
+                    res.nt(fw.h64(["open", kind, pos, req, by_chrom]))
+                    case = {"gfa": g.text(), "chromosome_order": req, "by_chrom": by_chrom, "root": None, "flip": False, "bad": [], "open_shape": kind,
+                            "hashseed": int(os.environ.get("PYTHONHASHSEED", "0"))}
+                    if run.outcome.kind != "ok":
+                        res.fail(f"C18/command-failed:{run.outcome.sig()}", f"[{kind} component at {comps[pos].chrom}] --chromosome_order {req}: the command does not complete normally: {run.outcome.brief()}", case)
+                        continue
+                    # if it was skipped, the others must look as if it had not been requested
+                    skipped = by_chrom and run.gfa(comps[pos].chrom) is None
+                    rest = [n for n in req.split(",") if n != comps[pos].chrom]
+                    if skipped and rest:
+                        ref = oc.run_order(scratch, g.text(), ",".join(rest), by_chrom=True, tag="openref")
+                        if ref.outcome.kind == "ok" and outputs_of(run, rest, True) != outputs_of(ref, rest, True):
+                            res.fail("C18/other-chromosomes-affected", f"[{kind} component at {comps[pos].chrom}, skipped] the outputs for {rest} differ from the request without it", case)
+    # the default chromosome order twice in one process, with one non-chain among the 25 chromosomes
+    names = [f"chr{i}" for i in range(1, 23)] + ["chrX", "chrY", "chrM"]
+    comps = []
+    for i, nm in enumerate(names):
+        if nm == "chr7":
+            comps.append(bad(nm, 500, "h7#1#c", "tip-on-scaffold"))
+        elif nm in ("chr1", "chrX"):
+            comps.append(good(nm, 600 + 30 * i, f"h{i}#1#c", blocks=("snp",)))
+        else:
+            comps.append(no_articulation_component(nm, 2000 + 10 * i, "-", "two-segments"))
+    g25 = gen.merge_graphs([c.g for c in comps])
+    outs = []
+    for k in range(2):
+        run = oc.run_order(scratch, g25.text(), "", by_chrom=True, tag=f"def{k}")
+        res.evaluations += 1
+        res.next_call()
+        outs.append((run.outcome.kind, run.outcome.sig(), sorted(f for f in run.files if "chr1" in f or "chrX" in f)))
+    case = {"gfa": g25.text(), "chromosome_order": "", "by_chrom": True, "root": None, "flip": False, "bad": ["chr7"], "default_twice": True, "hashseed": 0}
+    if outs[0][0] != "ok":
+        res.fail(f"C18/command-failed:{outs[0][1]}", f"default chromosome order with one non-chain (chr7): {outs[0][1]}", case)
+    elif outs[1] != outs[0]:
+        res.fail("C18/second-run-differs", f"the same command run twice in one process: first {outs[0]}, second {outs[1]}", case)
+    res.count("default_order_runs", 2)
+
+
 def shard_mixed(res, scratch):
     """one component of each bad shape together, and the chain-shaped-but-mixed end-to-end join"""
     comps = [bad("chr1", 0, "hA#1#c", "tip-on-scaffold"), good("chr2", 40, "hB#1#c"), bad("chr3", 80, "hC#1#c", "three-articulation-cycle")]
@@ -234,8 +308,10 @@ def shard_mixed(res, scratch):
 
 
 def run_shard(spec, tier, scratch):
-    res = fw.ShardResult()
-    if spec.get("reuse"):
+    res = fw.ShardResult().begin(spec, tier)
+    if spec.get("open"):
+        shard_open_shapes(res, scratch)
+    elif spec.get("reuse"):
         shard_reused_outdir(res, scratch)
     elif spec.get("mixed"):
         shard_mixed(res, scratch)
@@ -247,6 +323,13 @@ def run_shard(spec, tier, scratch):
 def replay(case, scratch):
     res = fw.ShardResult()
     g = rgfa.Graph.parse(case["gfa"])
+    if case.get("open_shape") or case.get("default_twice"):
+        if case.get("default_twice"):
+            return []  # needs the first run: re-created through the call sequence
+        run = oc.run_order(scratch, case["gfa"], case["chromosome_order"], by_chrom=case["by_chrom"], tag="open")
+        if run.outcome.kind != "ok":
+            res.fail(f"C18/command-failed:{run.outcome.sig()}", run.outcome.brief(), case)
+        return res.failures
     if case.get("earlier_run_in_same_outdir"):
         e = case["earlier_run_in_same_outdir"]
         oc.run_order(scratch, e["gfa"], case["chromosome_order"], by_chrom=True, tag="hist")
